@@ -111,7 +111,7 @@ class FGen:
             a = self.expr(d - 1)
             return '(-%s)' % a[0], '(-%s)' % a[1], a[2], -a[3]
         a = self.expr(d - 1)
-        if a[2] == 'f' and ch.bool():
+        if a[2] == 'f' and ch.bool() and a[0] not in self.unc:      # a value that is only bounded may cancel against another one: no sound range
             cands = [(t, lo, hi) for t, lo, hi in ICAST if lo <= a[3] <= hi and (lo <= -a[3] <= hi or lo == 0.0 and a[3] >= 0)]
             # '?:' and comparison results carry only a bound, so the cast must be defined for every value of smaller magnitude
             cands = [c for c in cands if not (c[1] == 0.0 and '?' in a[0] and '-' in a[0])]
@@ -244,13 +244,13 @@ class C07:
             decls += 'static _Bool @b = %s;\n' % C
             body += '  { _Bool r = %s; printf("@ %%d %%d\\n", @b, r); }\n' % Rt
         elif form == 'static-int':
-            if kind == 'f' and not (abs(approx) < 2e9):
+            if kind == 'f' and (not (abs(approx) < 2e9) or C in fg.unc):      # conversion of an out-of-range value to int is undefined: the value must be known
                 return None
             t = 'long' if kind == 'i' else 'int'
             decls += 'static %s @x = %s;\n' % (t, C)
             body += '  { %s r = %s; printf("@ %%ld %%ld\\n", (long)@x, (long)r); }\n' % (t, Rt)
         elif form == 'enumerator':
-            if not (abs(approx) < 2e9):
+            if not (abs(approx) < 2e9) or (kind == 'f' and C in fg.unc):
                 return None
             decls += 'enum { @K = %s };\n' % C
             body += '  printf("@ %%d %%d\\n", (int)@K, (int)(%s));\n' % Rt
